@@ -111,6 +111,7 @@ def make_problem(E, var_kinds, cons_kinds, fmt="coo", jac_pattern=None, hess_pat
         hess_pattern = [(i, j) for i in range(n) for j in range(n)]
     calls = log if log is not None else []
     cache = {}
+    handed = []
 
     def caller():
         f = sys._getframe(2)
@@ -132,11 +133,20 @@ def make_problem(E, var_kinds, cons_kinds, fmt="coo", jac_pattern=None, hess_pat
         k = (kind,) if policy == "cached" else (kind, key)
         if k not in cache:
             cache[k] = build()
+            handed.extend(snapshot([(f"{kind}@{len(handed)}", cache[k])]))
         return cache[k]
 
     def pkey(x, y=None):
         its = items(x) + (items(y) if y is not None else [])
         return tuple(str(core.zexpr(v)) if boot.MODE == "sym" else repr(float(v)) for v in its)
+
+    const = policy == "cached"  # constant Jacobian / Hessian returned as one cached object
+
+    def Jf(i, j, xs):
+        return E.uf(f"{tag}J{i}_{j}") if const else E.uf(f"{tag}J{i}_{j}", *xs)
+
+    def Hf(a, b, xs, ys):
+        return E.uf(f"{tag}H{a}_{b}") if const else E.uf(f"{tag}H{a}_{b}", *xs, *ys)
 
     class P(Problem):
         def __init__(self):
@@ -151,17 +161,21 @@ def make_problem(E, var_kinds, cons_kinds, fmt="coo", jac_pattern=None, hess_pat
         def obj_grad(self, x):
             xs = items(x)
             calls.append(("obj_grad", xs, None, caller()))
+            if const:
+                return arr([flag("obj_grad", E.uf(f"{tag}g{j}", *xs)) for j in range(n)])
             return memo("g", pkey(x), lambda: arr([flag("obj_grad", E.uf(f"{tag}g{j}", *xs)) for j in range(n)]))
 
         def cons(self, x):
             xs = items(x)
             calls.append(("cons", xs, None, caller()))
+            if const:
+                return arr([flag("cons", E.uf(f"{tag}c{i}", *xs)) for i in range(m)])
             return memo("c", pkey(x), lambda: arr([flag("cons", E.uf(f"{tag}c{i}", *xs)) for i in range(m)]))
 
         def cons_jac(self, x):
             xs = items(x)
             calls.append(("cons_jac", xs, None, caller()))
-            return memo("J", pkey(x), lambda: make_sparse(fmt, (m, n), [(i, j, flag("cons_jac", E.uf(f"{tag}J{i}_{j}", *xs))) for (i, j) in jac_pattern]))
+            return memo("J", pkey(x), lambda: make_sparse(fmt, (m, n), [(i, j, flag("cons_jac", Jf(i, j, xs))) for (i, j) in jac_pattern]))
 
         def lag_hess(self, x, y):
             xs, ys = items(x), items(y)
@@ -171,14 +185,48 @@ def make_problem(E, var_kinds, cons_kinds, fmt="coo", jac_pattern=None, hess_pat
                 ent = []
                 for (i, j) in hess_pattern:
                     a, b = (i, j) if i <= j else (j, i)
-                    ent.append((i, j, flag("lag_hess", E.uf(f"{tag}H{a}_{b}", *xs, *ys))))
+                    ent.append((i, j, flag("lag_hess", Hf(a, b, xs, ys))))
                 return make_sparse(fmt, (n, n), ent)
 
             return memo("H", pkey(x, y), build)
 
     p = P()
-    spec = dict(n=n, m=m, xl=xl, xu=xu, cl=cl, cu=cu, calls=calls, var_kinds=var_kinds, cons_kinds=cons_kinds, jac_pattern=jac_pattern, hess_pattern=hess_pattern, tag=tag)
+    spec = dict(n=n, m=m, xl=xl, xu=xu, cl=cl, cu=cu, calls=calls, var_kinds=var_kinds, cons_kinds=cons_kinds, jac_pattern=jac_pattern, hess_pattern=hess_pattern, tag=tag, Jf=Jf, Hf=Hf, policy=policy, cache=cache, handed=handed)
     return p, spec
+
+
+def eq_ext(a, b):
+    if a in (INF, -INF) or b in (INF, -INF):
+        return (not core.is_sym(a)) and (not core.is_sym(b)) and a == b
+    return a == b
+
+
+def snapshot(objs):
+    out = []
+    for name, o in objs:
+        if hasattr(o, "toarray") or hasattr(o, "tocoo"):
+            st = [(name + ".data", o.data)]
+            for attr in ("row", "col", "indices", "indptr"):
+                if hasattr(o, attr):
+                    try:
+                        st.append((name + "." + attr, getattr(o, attr)))
+                    except AttributeError:
+                        pass
+            for nm, a in st:
+                out.append((nm, a, list(items(a))))
+        else:
+            out.append((name, o, list(items(o))))
+    return out
+
+
+def check_snapshots(E, snaps, oid):
+    for name, a, before in snaps:
+        now = items(a)
+        ok = len(now) == len(before)
+        if ok:
+            for x, y in zip(now, before):
+                ok = land(ok, eq_ext(x, y))
+        E.prove(ok, oid, info=name)
 
 
 def eq_all(a, b):
